@@ -82,6 +82,7 @@ class Ctx:
         self.sweep_timeout = 5000
         self.do_sweep = True
         self.allow_concretize = False
+        self.consts = {}  # name -> (z3 var, float) algebraic constants (sqrt 2, sqrt 3, ...)
 
     def check(self, f, timeout=30000):
         """decide validity of f under the path condition: 'unsat' (valid), 'sat' (+model), 'unknown'"""
@@ -132,6 +133,33 @@ def key(c):
     return float("%.9e" % c)
 
 
+_SQRT_BASES = (2, 3, 5, 6, 7, 10)
+
+
+def _algebraic(x):
+    """a float within 1e-15 of (p/q)*sqrt(m), m in {2,3,5,6,7,10}, |p|,q <= 24, is read as that algebraic number:
+    a constant atom c with c*c = m, c > 0 (so that (sqrt 5)^2 / 3 is exactly 5/3, as in the real-number meaning)"""
+    if x == 0 or x != x or abs(x) in (math.inf,):
+        return None
+    r = repr(x)
+    mant = r.lower().split("e")[0].replace("-", "").replace(".", "").lstrip("0")
+    if len(mant) <= 12:
+        return None
+    for m in _SQRT_BASES:
+        q = Fraction(x / math.sqrt(m)).limit_denominator(24)
+        if q != 0 and abs(q.numerator) <= 24 and abs(float(q) * math.sqrt(m) - x) <= 2e-15 * abs(x):
+            name = "c_sqrt_%d" % m
+            ent = CTX.consts.get(name)
+            if ent is None:
+                v = z3.Real(name)
+                CTX.pc.append(v * v == m)
+                CTX.pc.append(v > 0)
+                ent = (v, math.sqrt(m))
+                CTX.consts[name] = ent
+            return Sym(ent[0] * rv(q) if q != 1 else ent[0], ONE, x)
+    return None
+
+
 class Sym:
     __slots__ = ("n", "d", "c")
 
@@ -145,6 +173,9 @@ class Sym:
         if isinstance(x, Fraction):
             return Sym(rv(x), ONE, float(x))
         x = float(x)
+        a = _algebraic(x)
+        if a is not None:
+            return a
         return Sym(rv(x), ONE, x)
 
     def is_const(self):
@@ -400,6 +431,89 @@ def ite(cond, a, b):
     return Sym(z3.If(cond.f, a.n * b.d, b.n * a.d), a.d * b.d, a.c if cond.c else b.c)
 
 
+class Eval:
+    """concrete value of z3 terms at the witness (atoms and function atoms carry their witness values)"""
+
+    def __init__(self):
+        self.vmemo = {}
+
+    # ---------------------------------------------------------------- concrete value of a z3 term at the witness
+    def cev(self, t):
+        i = t.get_id()
+        if i in self.vmemo:
+            return self.vmemo[i]
+        k = t.decl().kind()
+        if z3.is_rational_value(t):
+            v = float(fr(t))
+        elif z3.is_const(t) and k == z3.Z3_OP_UNINTERPRETED:
+            name = t.decl().name()
+            if name in CTX.atoms:
+                v = CTX.atoms[name].c
+            elif i in CTX.fun_of:
+                v = CTX.fun_of[i][2].c
+            elif name in CTX.consts:
+                v = CTX.consts[name][1]
+            else:
+                raise Unsupported("eval: unknown variable %s" % name)
+        elif k == z3.Z3_OP_ADD:
+            v = sum(self.cev(c) for c in t.children())
+        elif k == z3.Z3_OP_MUL:
+            v = 1.0
+            for c in t.children():
+                v *= self.cev(c)
+        elif k == z3.Z3_OP_SUB:
+            ch = t.children()
+            v = self.cev(ch[0]) - sum(self.cev(c) for c in ch[1:])
+        elif k == z3.Z3_OP_UMINUS:
+            v = -self.cev(t.children()[0])
+        elif k == z3.Z3_OP_DIV:
+            a, b = t.children()
+            v = self.cev(a) / self.cev(b)
+        elif k == z3.Z3_OP_POWER:
+            a, b = t.children()
+            v = self.cev(a) ** self.cev(b)
+        elif k == z3.Z3_OP_ITE:
+            c, a, b = t.children()
+            v = self.cev(a) if self.cevb(c) else self.cev(b)
+        elif k == z3.Z3_OP_TO_REAL:
+            v = self.cev(t.children()[0])
+        else:
+            raise Unsupported("eval: term kind %d (%s)" % (k, t.decl().name()))
+        self.vmemo[i] = v
+        return v
+
+    def cevb(self, t):
+        k = t.decl().kind()
+        ch = t.children()
+        if z3.is_true(t):
+            return True
+        if z3.is_false(t):
+            return False
+        if k == z3.Z3_OP_LE:
+            return self.cev(ch[0]) <= self.cev(ch[1])
+        if k == z3.Z3_OP_LT:
+            return self.cev(ch[0]) < self.cev(ch[1])
+        if k == z3.Z3_OP_GE:
+            return self.cev(ch[0]) >= self.cev(ch[1])
+        if k == z3.Z3_OP_GT:
+            return self.cev(ch[0]) > self.cev(ch[1])
+        if k == z3.Z3_OP_EQ:
+            return self.cev(ch[0]) == self.cev(ch[1])
+        if k == z3.Z3_OP_DISTINCT:
+            return self.cev(ch[0]) != self.cev(ch[1])
+        if k == z3.Z3_OP_NOT:
+            return not self.cevb(ch[0])
+        if k == z3.Z3_OP_AND:
+            return all(self.cevb(c) for c in ch)
+        if k == z3.Z3_OP_OR:
+            return any(self.cevb(c) for c in ch)
+        raise Unsupported("eval: boolean kind %d" % k)
+
+    def V(self, t):
+        return Sym(t, ONE, self.cev(t))
+
+
+
 def norm(s):
     if s is NAN or s.is_const():
         return s
@@ -520,11 +634,24 @@ def _lookup_result(fname, t):
     return None
 
 
+def _split_ite(t):
+    """if t = If(c, a, b)/d at top level: (SymB c, Sym a/d, Sym b/d) else None  (f(If(c,a,b)) = If(c, f a, f b))"""
+    if t.is_const() or not z3.is_app_of(t.n, z3.Z3_OP_ITE):
+        return None
+    c, a, b = t.n.children()
+    ev = Eval()
+    dc = ev.cev(t.d)
+    return SymB(c, ev.cevb(c)), Sym(a, t.d, ev.cev(a) / dc), Sym(b, t.d, ev.cev(b) / dc)
+
+
 def sym_sqrt(t, strict=False):
     t = as_sym(t)
     if t is NAN:
         return NAN
     t = norm(t)
+    sp = _split_ite(t)
+    if sp is not None:
+        return ite(sp[0], sym_sqrt(sp[1]), sym_sqrt(sp[2]))
     if t.is_const():
         f = fr(t.n)
         if f >= 0:
@@ -548,6 +675,9 @@ def sym_exp(t):
     if t is NAN:
         return NAN
     t = sweep(t)
+    sp = _split_ite(t)
+    if sp is not None:
+        return ite(sp[0], sym_exp(sp[1]), sym_exp(sp[2]))
     if t.is_const() and fr(t.n) == 0:
         return Sym.const(1.0)
     w = _lookup_result("log", t)  # exp(log w) = w
@@ -614,6 +744,9 @@ def sym_tanh(t):
 
 def sym_sin(t):
     t = sweep(as_sym(t))
+    sp = _split_ite(t)
+    if sp is not None:
+        return ite(sp[0], sym_sin(sp[1]), sym_sin(sp[2]))
     if t.is_const() and fr(t.n) == 0:
         return Sym.const(0.0)
     return ufun("sin", t, math.sin(t.c), lambda v, a: [v >= -1, v <= 1])
@@ -621,6 +754,9 @@ def sym_sin(t):
 
 def sym_cos(t):
     t = sweep(as_sym(t))
+    sp = _split_ite(t)
+    if sp is not None:
+        return ite(sp[0], sym_cos(sp[1]), sym_cos(sp[2]))
     if t.is_const() and fr(t.n) == 0:
         return Sym.const(1.0)
     return ufun("cos", t, math.cos(t.c), lambda v, a: [v >= -1, v <= 1])
